@@ -108,7 +108,7 @@ func c18Drive(c *Case, lim *rate.Limiter, ts []int64) (grants []int64) {
 }
 
 func runC18(r *Run) {
-	r.Rule = "(a) the rate.Limiter returned by the real CreateRateLimiter for random (I, B) — I from 1 ms to 5 s incl. values that are not a whole number of ms, B from 0 (= default 1) to 10 — driven through ReserveN(t,1).DelayFrom(t) with 20..80 (thorough 100) explicit request times on a millisecond grid in 7 arrival patterns (one burst, faster than I, slower than I, exactly I, bursts with gaps, mixed, random); every delay is compared with the integer model (tolerance 1 us) and the window bound B+ceil(T/I) is checked exactly on the limiter's own grant times for every window; unthrottled configurations (no settings, I = 0, I < 0) must never delay; a few cases with request times going backwards exercise the clamp (correspondence only). (b) settings blocks loaded through the real HookConfig.LoadAndValidate -> CreateRateLimiter -> Limit()/Burst(). (c) thorough: wall-clock runs of Hook.RateLimitWait from 1..3 goroutines (queues), start times measured with time.Now(), bound checked with a 40 ms allowance for timer lateness (runtime observation; inconclusive rather than failing when the scheduler was late). Non-trivial: >= 20 requests of which at least one was delayed; distinct = distinct op-line sequences."
+	r.Rule = "(a) the rate.Limiter returned by the real CreateRateLimiter for random (I, B) — I from 1 ms to 5 s incl. values that are not a whole number of ms, B from 0 (= default 1) to 10 — driven through ReserveN(t,1).DelayFrom(t) with 20..80 (thorough 100) explicit request times on a millisecond grid in 7 arrival patterns (one burst, faster than I, slower than I, exactly I, bursts with gaps, mixed, random); every delay is compared with the integer model (tolerance 1 us) and the window bound B+ceil(T/I) is checked exactly on the limiter's own grant times for every window; unthrottled configurations (no settings, I = 0, I < 0) must never delay; a few cases with request times going backwards exercise the clamp (correspondence only). (b) settings blocks loaded through the real HookConfig.LoadAndValidate -> CreateRateLimiter -> Limit()/Burst(). (c) wall-clock runs (2 quick, 8 thorough) of Hook.RateLimitWait from 1..3 goroutines (queues), start times measured with time.Now(), bound checked with a 40 ms allowance for timer lateness (runtime observation; inconclusive rather than failing when the scheduler was late). Non-trivial: >= 20 requests of which at least one was delayed; distinct = distinct op-line sequences."
 
 	// ---- corpus ----
 	r.One(0, func(c *Case, _ *Rng) {
@@ -233,9 +233,9 @@ func runC18(r *Run) {
 		c.Nontrivial = n >= 20 && delayed > 0
 	})
 
-	if r.Thorough() {
+	{
 		// ---- (c) wall clock, through Hook.RateLimitWait (runtime observation) ----
-		r.Cases(900000, 6, 2, func(c *Case, rng *Rng) {
+		r.Cases(900000, r.N(2, 8), 2, func(c *Case, rng *Rng) {
 			iv := PickOne(rng, []time.Duration{100 * time.Millisecond, 150 * time.Millisecond, 200 * time.Millisecond})
 			b := PickOne(rng, []int{1, 2, 3})
 			queues := rng.Range(1, 3)
